@@ -55,6 +55,14 @@ func init() {
 		QuickRuns: 4200, QuickSecs: 100, ThorRuns: 60000, ThorSecs: 900, Batch: 60,
 	})
 	Register(&Check{
+		ID: "C12", Engine: "netsim",
+		Real:      []string{"threshold.Scheme (handler tables, admission, cleanup paths of KeyGen/Sign)", "disc.Member", "disc.SilentSynchronizer", "rbc.Receiver", "msg.Box (startedSending across sessions)"},
+		Stub:      append([]string{"MPC backend (scripted; hand-offs attributed to the emitting instance through unique payload bodies)", "outsider adversary (non-participants re-send copies of session traffic)"}, e1Stub...),
+		Rule:      "one case = one seeded history of 2..6 phases over 1..3 topics (successful, peer-missing, cancelled, overlapping same-topic, concurrent different-topic Sign; successful and peer-missing KeyGen; a retry on the topic of an earlier failure), network drained between phases, seeded schedule inside each phase; distinct = distinct (history, schedule fingerprint); non-trivial = at least one failed/cancelled/overlapping session precedes a later phase",
+		Assume:    []string{"links are reliable FIFO", "a retry starts after the traffic of the earlier session has been delivered (topic reuse while old traffic is in flight is outside the statement)"},
+		QuickRuns: 3000, QuickSecs: 60, ThorRuns: 50000, ThorSecs: 900,
+	})
+	Register(&Check{
 		ID: "C13", Engine: "netsim",
 		Real:      []string{"threshold.Scheme (rbcEncoding, membership topic hash)", "disc.Member (tag/view encoding)", "rbc.Receiver", "msg.Box", "mpc/bls TBLS (StoredData / PublicParams ASN.1, Verifier)"},
 		Stub:      append([]string{"MPC backend (scripted, rounds 0..127) in part of the runs"}, e1Stub...),
